@@ -15,6 +15,7 @@ class Prop:
     retry_env = None        # set for real-time (UDP) observations: suspicious cases are re-run with this env
     parallel = 1
     sandbox = None
+    needs_bins = False
     search_seconds = 60
 
     def chunk_of(self, line):
@@ -135,7 +136,7 @@ def run_property(prop, tier, seed, replay=None):
     exit_code = 0
     out_lines = []
     try:
-        info = core.build(prop.id, [prop.module])
+        info = core.build(prop.id, [prop.module], bins=prop.needs_bins)
         if info["driver_rc"] != 0 or info["harness_rc"] != 0:
             # the model driver or the harness does not build against the current tree: nothing can be compared
             which = "lean driver" if info["driver_rc"] != 0 else "harness (cargo build against /repo)"
@@ -181,6 +182,7 @@ def run_property(prop, tier, seed, replay=None):
             viol += v
             dis += d
         viol += [(l, i, c, k, "") for (l, i, c, k) in prop.extra_checks(res, workdir, tier, rng)]
+        # (an empty model observation marks a process-level finding: reported as is)
         res.extra["correspondence_s"] = round(time.time() - t1, 1)
         for l in lines[:3] + lines[len(lines) // 2: len(lines) // 2 + 3] + lines[-3:]:
             res.samples.append(l if len(l) < 400 else l[:400] + "...")
@@ -219,7 +221,7 @@ def run_property(prop, tier, seed, replay=None):
             if key in reported:
                 continue
             reported.add(key)
-            sv = shrink_violation(prop, v, res, workdir)
+            sv = shrink_violation(prop, v, res, workdir) if v[4] != "" else v
             path = core.write_replay(prop.id, seed, {
                 "property": prop.id, "kind": "implementation-violates-property",
                 "case": sv[0], "implementation_observation": sv[1], "model_observation": sv[4],
